@@ -1019,4 +1019,8 @@ def run(ctx):
     documented_cleanups_level(ctx)
     value_text_level(ctx)
     charset_label_level(ctx)
+    # what was stored comes back also where the file system keeps whole seconds only and the item cache is keyed by size and time stamp
+    # (several uploads of one name in one tick): the level lives with the cache property
+    from props.c13 import coarse_clock_level
+    coarse_clock_level(ctx, prop="C14")
     witnesses(ctx)
